@@ -499,6 +499,14 @@ mod e2e {
                           ("xyz", "--xyz\r\nContent-Disposition: form-data; name=\"a\"\r\n\r\n\n--xyz--\r\n"), ("xyz", "--xyz\nContent-Disposition: form-data; name=\"a\"\n\n\n--xyz--\n"), ("", "x")] {
             v.push((format!("multipart boundary {:?} body {:?}", b, body), format!("POST /form-multipart-enctype-post-method HTTP/1.1\r\nContent-Type: multipart/form-data; boundary={}\r\nContent-Length: {}\r\n\r\n{}", b, body.len(), body).into_bytes()));
         }
+        for (name, body) in [("binary part body", b"--xyz\r\nContent-Disposition: form-data; name=\"a\"\r\n\r\n\xff\xfe\x00\r\n--xyz--\r\n".to_vec()),
+                             ("part without a field name", b"--xyz\r\nContent-Disposition: form-data\r\n\r\nv\r\n--xyz--\r\n".to_vec()),
+                             ("attachment part without a field name", b"--xyz\r\nContent-Disposition: attachment\r\n\r\nv\r\n--xyz--\r\n".to_vec()),
+                             ("part with a file name only", b"--xyz\r\nContent-Disposition: form-data; filename=\"f.bin\"\r\n\r\nv\r\n--xyz--\r\n".to_vec())] {
+            let mut raw = format!("POST /form-multipart-enctype-post-method HTTP/1.1\r\nContent-Type: multipart/form-data; boundary=xyz\r\nContent-Length: {}\r\n\r\n", body.len()).into_bytes();
+            raw.extend(body);
+            v.push((format!("multipart {}", name), raw));
+        }
         v.push(("non-utf8".into(), vec![0xff, 0xfe, b'G', b'E', b'T', b' ', b'/', b'\r', b'\n']));
         v.push(("zeros".into(), vec![0u8; 64]));
         let mut many = b"GET / HTTP/1.1\r\n".to_vec();
@@ -901,6 +909,69 @@ mod parsers {
     }
 }
 
+// ---------------------------------------------------------------- multipart/form-data round trip (C16)
+mod mpform {
+    use super::*;
+    use crate::body::multipart_form_data::{FormMultipartData, Part};
+    use crate::header::Header;
+
+    pub fn bodies() -> Vec<Vec<u8>> {
+        vec![b"".to_vec(), b"x".to_vec(), b"value".to_vec(), b"\n".to_vec(), b"\r\n".to_vec(), b"a\n".to_vec(), b"a\r\n".to_vec(), b"\r".to_vec(), b"line1\r\nline2".to_vec(),
+             b"--".to_vec(), b"-- not a boundary --".to_vec(), vec![0, 255, 254, 13, 10, 0], (0..=255u8).collect(), b"ends with cr\r".to_vec()]
+    }
+    pub fn boundaries() -> Vec<&'static str> {
+        vec!["xyz", "----WebKitFormBoundary7MA4YWxkTrZu0gW", "a-b", "b.o,u:n'd(a)r+y_=?", "0123456789012345678901234567890123456789012345678901234567890123456789", "X", "--lead"]
+    }
+    pub fn case(i: u64) -> (Vec<(Vec<(String, String)>, Vec<u8>)>, &'static str) {
+        let mut rng = Rng(i.wrapping_mul(6364136223846793005) | 1);
+        let bs = bodies();
+        let n = 1 + rng.below(3) as usize;
+        let mut parts = vec![];
+        for k in 0..n {
+            let mut hs = vec![("Content-Disposition".to_string(), format!("form-data; name=\"f{}\"", k))];
+            if rng.below(2) == 0 { hs.push(("Content-Type".to_string(), "application/octet-stream".to_string())); }
+            if rng.below(4) == 0 { hs.push(("X-Extra".to_string(), "a: b".to_string())); }
+            parts.push((hs, bs[rng.below(bs.len() as u64) as usize].clone()));
+        }
+        let bd = boundaries();
+        (parts, bd[rng.below(bd.len() as u64) as usize])
+    }
+    pub fn check(i: u64) -> Option<(String, String)> {
+        let (parts, boundary) = case(i);
+        let list: Vec<Part> = parts.iter().map(|(hs, b)| Part { headers: hs.iter().map(|(n, v)| Header { name: n.clone(), value: v.clone() }).collect(), body: b.clone() }).collect();
+        let gen = panic::catch_unwind(move || FormMultipartData::generate(list, boundary));
+        let bytes = match gen { Err(_) => return Some(("c16_panic".into(), "generate panicked".into())), Ok(Err(e)) => return Some(("c16_generate".into(), format!("generate Err({})", e))), Ok(Ok(b)) => b };
+        let b2 = bytes.clone();
+        let back = panic::catch_unwind(move || FormMultipartData::parse(&b2, boundary.to_string()));
+        match back {
+            Err(_) => Some(("c16_panic".into(), format!("parse panicked; boundary {:?}", boundary))),
+            Ok(Err(e)) => Some((if boundary.trim_start_matches('-').contains('-') { "c16_interior_hyphen_boundary".into() } else { "c16_roundtrip".into() }, format!("parse Err({}) boundary {:?} parts {:?}", e, boundary, parts))),
+            Ok(Ok(ps)) => {
+                let got: Vec<(Vec<(String, String)>, Vec<u8>)> = ps.iter().map(|p| (p.headers.iter().map(|h| (h.name.clone(), h.value.clone())).collect(), p.body.clone())).collect();
+                if got != parts { Some(("c16_roundtrip".into(), format!("boundary {:?}: wrote {:?} read back {:?}", boundary, parts, got))) } else { None }
+            }
+        }
+    }
+    pub fn search(seed: u64) -> bool {
+        let mut h = Hits::new();
+        for i in 0..1500u64 { if let Some((c, o)) = check(seed.wrapping_add(i)) { h.hit("mpform", &c, "FormMultipartData", &seed.wrapping_add(i).to_string(), &o); } }
+        // rejection of broken bodies
+        let good = b"xyz\r\nContent-Disposition: form-data; name=\"a\"\r\n\r\nv\r\nxyz".to_vec();
+        for (name, body) in [("no opening boundary", b"Content-Disposition: form-data; name=\"a\"\r\n\r\nv\r\nxyz".to_vec()), ("no closing boundary", b"xyz\r\nContent-Disposition: form-data; name=\"a\"\r\n\r\nv\r\n".to_vec()),
+                             ("part without headers", b"xyz\r\n\r\nv\r\nxyz".to_vec()),
+                             ("second part cut in its headers", b"xyz\r\nContent-Disposition: form-data; name=\"a\"\r\n\r\nv\r\nxyz\r\nContent-Disposition: form-data; name=\"b\"".to_vec()),
+                             ("second part cut after its headers", b"xyz\r\nContent-Disposition: form-data; name=\"a\"\r\n\r\nv\r\nxyz\r\nContent-Disposition: form-data; name=\"b\"\r\n\r\n".to_vec()),
+                             ("only part cut in its headers", b"xyz\r\nContent-Disposition: form-data; name=\"a\"\r\n".to_vec()),
+                             ("no closing boundary, body without line break", b"xyz\r\nContent-Disposition: form-data; name=\"a\"\r\n\r\nv".to_vec())] {
+            let r = panic::catch_unwind(move || FormMultipartData::parse(&body, "xyz".to_string()));
+            match r { Err(_) => h.hit("mpform", "c16_panic", "FormMultipartData::parse", name, "panic"), Ok(Ok(ps)) => h.hit("mpform", "c16_not_rejected", "FormMultipartData::parse", name, &format!("accepted with {} part(s)", ps.len())), Ok(Err(_)) => {} }
+        }
+        let g2 = good.clone();
+        if let Ok(Ok(ps)) = panic::catch_unwind(move || FormMultipartData::parse(&g2, "xyz".to_string())) { if ps.len() != 1 || ps[0].body != b"v" { h.hit("mpform", "c16_roundtrip", "FormMultipartData::parse", "control", "control body misread"); } }
+        h.n > 0
+    }
+}
+
 mod probe2 {
     pub fn run() {
         std::panic::set_hook(Box::new(|i| { eprintln!("PANIC {}", i); }));
@@ -947,6 +1018,7 @@ pub fn dispatch(args: &[String]) -> i32 {
         ("replay", "request") => req::replay(&args[2], &args[3]),
         ("search", "shims") => shimtest::search(args.get(2).and_then(|s| s.parse().ok()).unwrap_or(1)),
         ("search", "parsers") => parsers::search(args.get(2).and_then(|s| s.parse().ok()).unwrap_or(1)),
+        ("search", "mpform") => mpform::search(args.get(2).and_then(|s| s.parse().ok()).unwrap_or(1)),
         ("search", "range") => rng::search(args.get(2).and_then(|s| s.parse().ok()).unwrap_or(1)),
         ("replay", "range") => rng::replay(&args[2], &args[3]),
         _ => { eprintln!("unknown routine"); return 2; }
